@@ -4,11 +4,11 @@ N_THOROUGH = 30000
 MODEL_SHOW = "model_run"
 DISAGREE_IS_VIOLATION = True   # observables are exactly what the property fixes
 HARNESS_TIMEOUT = 900
-RULE = ("fixed: pipelined scripts (set, push not awaited, set, [acks], push; re-routing inside a script; queries inside a script, on a live and on a removed connection); the chat2 login sequence (bind + routing key on the front, forward, back-end set/push); later-push-wins across two back-sessions incl. the "
+RULE = ("fixed: THE CLOSING WINDOW (a script kicks its connection - BackSession.Kick / app.Kick -> sys.kick closes the socket - then binds, sets the routing key, pushes and queries while the session is still registered; the OnClose handlers' view (SetOnCloseHandler and AddOnSessionClose) must contain every push; on a live and on a removed connection); HANDLERS THAT ANSWER FIRST AND KEEP THEIR SESSION (room.h.keep stores ctx.Session after responding; two connections' kept sessions used alternately on the same back-end, with queries, dumps, pushes and a removal in between); WRITES EQUAL TO A STALE VIEW (unbind through a back-end-created session, a queried value, the id a request arrived with - after somebody else wrote the key); pipelined scripts (set, push not awaited, set, [acks], push; re-routing inside a script; queries inside a script, on a live and on a removed connection); the chat2 login sequence (bind + routing key on the front, forward, back-end set/push); later-push-wins across two back-sessions incl. the "
         "re-sent NewData; routing and bound id following pushed keys; pushes / queries / dumps for a removed connection with a second live connection "
         "as frame witness; a local unpushed value shadowing the queried one; value shapes (2^53-1, nested lists, null). random: 1-3 connections, 1-4 "
         "back-session handles living in chat-1 / chat-2 / room-1, 4-80 sequential operations (connect, remove, front set/bind/get/dump, forward, "
-        "back new/set/bind/get/dump/push/query, and PIPELINED SCRIPTS on one back-session: 1-6 set / push / query steps run in one turn of the owning service, nothing awaited in between, all callbacks collected afterwards) over reserved key _ID (strings only), the routing key (instance names, unknown names, \"\", non-strings, null) "
+        "back new/set/bind/get/dump/push/query, and PIPELINED SCRIPTS on one back-session: 1-6 set / push / query steps run in one turn of the owning service, nothing awaited in between, 7% of them containing a kick, all callbacks collected afterwards; OForwardKeep; every removal reports the OnClose view; a third of all writes repeat a value already written to that key by anybody) over reserved key _ID (strings only), the routing key (instance names, unknown names, \"\", non-strings, null) "
         "and 3 user keys with ints, floats, strings, booleans, null, lists. Non-trivial = at least one map, value or forwarded envelope was observed; "
         "distinct = distinct op lists.")
 TRUSTED_BASE = [
@@ -22,6 +22,7 @@ TRUSTED_BASE = [
 ASSUMPTIONS = [
     "guard on reserved keys: _ID is only bound/pushed as a string, _NetId and _ServerId are never written by handlers (FrontSession.GetID / GetNetId and BackSession.FromJson type-assert and would panic)",
     "numbers are integral with |n| < 2^53 (exactly representable as float64); other JSON-representable values are covered by the abstract rt in the theorems but not generated",
+    "the closing window is reached deterministically: the front's goroutine is occupied for 8 ms while the script's sys.kick / sys.pushsession / sys.querysession messages queue up, so that they are handled in one mailbox run - the kick closes the connection, the posted RemoveSession runs after that run; other ways of closing (client drop, heartbeat time-out, write error) flip the same IsClosed state and post the same RemoveSession",
     "a back-session is created for a connection that exists or existed (its id is the one the server allocated); `never existed` ids take the same code path as removed ones (findSession returns nil)",
     "the front service named by BackSession.ServerId exists (a missing front is C07's F10: the callback never runs)",
 ]
